@@ -402,7 +402,7 @@ Act(rec, events) ==
 NoRead == burst' = TRUE /\ breads' = Reads0
 
 Attach(c, o) ==
-    /\ MayAct /\ Open /\ cstate[c] = "new"
+    /\ cstate[c] = "new" /\ Open /\ MayAct
     /\ cstate' = [cstate EXCEPT ![c] = "att"] /\ copt' = [copt EXCEPT ![c] = o]
     /\ aq' = Append(aq, c)
     /\ Act([k |-> "attach", c |-> c, sync |-> o.sync, keep |-> o.keep, attached |-> TRUE],
@@ -423,8 +423,8 @@ MkOp(o, k, v) ==
     ELSE [o |-> "clr"]
 
 CSend(c, o, k) ==
-    /\ MayAct /\ Open /\ Alive(c) /\ ncmd[c] < MaxCmd
-    /\ o \in CmdKinds /\ k \in KeyChoice(o)
+    /\ o \in CmdKinds /\ k \in KeyChoice(o)          \* (cheap filters first: TLC evaluates in order)
+    /\ Alive(c) /\ ncmd[c] < MaxCmd /\ Open /\ MayAct
     /\ LET op == MkOp(o, k, Val(c, ncmd[c] + 1)) IN
        /\ ncmd' = [ncmd EXCEPT ![c] = @ + 1]
        /\ cq' = [cq EXCEPT ![c] = Append(@, op)]
@@ -434,7 +434,7 @@ CSend(c, o, k) ==
                    attVars, readVars, writeVars, done>>
 
 CDrop(c) ==
-    /\ MayAct /\ Open /\ Alive(c)
+    /\ Alive(c) /\ Open /\ MayAct
     /\ cstate' = [cstate EXCEPT ![c] = "dropped"]
     /\ awL' = Filter(awL, c) /\ awS' = Filter(awS, c) /\ reg' = Filter(reg, c)
     /\ Act([k |-> "cdrop", c |-> c], <<[k |-> "cdrop", c |-> c]>>)
@@ -463,7 +463,7 @@ Readable == wire # <<>> /\ ~(ws = "idle" /\ wreg # {} /\ ~flushed /\ ~fstart)
 \* can be read (the first SockCap ones); otherwise the read completes with the writer's help,
 \* i.e. the runtime runs: the burst is over.
 RRead(hold) ==
-    /\ MayDrain /\ Readable /\ (Quiescent \/ Reads0 < SockCap)
+    /\ Readable /\ MayDrain /\ (Quiescent \/ Reads0 < SockCap)
     /\ Draining => (~hold /\ outbox = <<>>)
     /\ breads' = Reads0 + 1 /\ burst' = (Reads0 < SockCap)
     /\ LET f == Head(wire)
@@ -479,7 +479,7 @@ RRead(hold) ==
     /\ UNCHANGED <<aq, cq, cstate, copt, ncmd, nset, stopped, closing, attVars, readVars, writeVars, done>>
 
 RPush ==
-    /\ MayDrain /\ outbox # <<>>
+    /\ outbox # <<>> /\ MayDrain
     /\ outbox' = Tail(outbox) /\ down' = Append(down, Head(outbox))
     /\ Act([k |-> "rpush", resp |-> <<Head(outbox)>>], RSends(<<Head(outbox)>>))
     /\ NoRead
@@ -488,8 +488,8 @@ RPush ==
 
 \* a change of the lane made by somebody else
 RSet(o, k) ==
-    /\ MayAct /\ Open /\ nset < MaxSet
     /\ o \in (IF Kind = "value" THEN {"set"} ELSE {"upd", "rem"}) /\ k \in KeyChoice(o)
+    /\ nset < MaxSet /\ Open /\ MayAct
     /\ LET op == MkOp(o, k, RVal(nset + 1))
            out == IF rlinked THEN outbox \o <<Ev(op)>> ELSE outbox IN
        /\ nset' = nset + 1 /\ lane' = ApplyOp(lane, op)
@@ -500,7 +500,7 @@ RSet(o, k) ==
                    attVars, readVars, writeVars, done>>
 
 RUnlink ==
-    /\ MayAct /\ Open /\ AllowStop /\ rlinked
+    /\ AllowStop /\ rlinked /\ Open /\ MayAct
     /\ rlinked' = FALSE /\ closing' = TRUE
     /\ LET out == outbox \o <<Ul>> IN
        /\ outbox' = <<>> /\ down' = down \o out
@@ -509,7 +509,7 @@ RUnlink ==
     /\ UNCHANGED <<lane, wire, aq, cq, cstate, copt, ncmd, nset, stopped, attVars, readVars, writeVars, done>>
 
 Stop ==
-    /\ MayAct /\ Open /\ AllowStop
+    /\ AllowStop /\ Open /\ MayAct
     /\ stopped' = TRUE /\ closing' = TRUE
     /\ Act([k |-> "stop"], <<[k |-> "stop"]>>)
     /\ NoRead
@@ -520,7 +520,7 @@ Running == ~(rs = "done" /\ ws = "stopped" /\ attDone)
 
 \* end of the script: everything has been read and answered, all is idle
 Finish ==
-    /\ ~done /\ Quiescent /\ ~Readable /\ outbox = <<>>
+    /\ ~done /\ ~Readable /\ outbox = <<>> /\ Quiescent
     /\ done' = TRUE
     /\ p' = PSteps(p, <<[k |-> "settle"], [k |-> "finish", running |-> Running]>>)
     /\ hist' = Append(hist, [k |-> "finish", pre |-> TRUE, del |-> <<>>, running |-> Running])
